@@ -10,7 +10,7 @@ DEBUG = "impl/src/fmt/debug.rs"
 
 
 def tx(t):
-    return T.ir_text(t.ir).replace(" ", "")
+    return A.TTxt(T.ir_text(t.ir).replace(" ", ""))
 
 
 def rule_builder_shape(ctx):
@@ -19,19 +19,22 @@ def rule_builder_shape(ctx):
     f = fn.file
     w = ctx.where(f, fn.node)
     t = A.fn_text(fn)
-    tt = [tx(x) for x in T.templates_of(fn)]
+    tt = A.TList(tx(x) for x in T.templates_of(fn))
+    from . import fmtdec
+
+    F = fmtdec.formatter_name(ctx, DEBUG)
 
     def need(key, cond, msg, detail=None):
         ctx.instance(key)
         if not cond:
             ctx.report(key, w, msg, detail or {"templates": tt})
 
-    need("dbg:unit", "derive_more::core::fmt::Formatter::write_str(__derive_more_f,#ident,)" in tt, "a unit struct / variant no longer prints through `Formatter::write_str(f, name)` (std pads nothing and ignores flags there, `write!`/`Display::fmt` would not)")
-    need("dbg:tuple:open", "&mutderive_more::__private::debug_tuple(__derive_more_f,#ident_str,)" in tt, "positional fields no longer start with `debug_tuple(f, name)`")
+    need("dbg:unit", f"derive_more::core::fmt::Formatter::write_str({F},#ident,)" in tt, "a unit struct / variant no longer prints through `Formatter::write_str(f, name)` (std pads nothing and ignores flags there, `write!`/`Display::fmt` would not)")
+    need("dbg:tuple:open", f"&mutderive_more::__private::debug_tuple({F},#ident_str,)" in tt, "positional fields no longer start with `debug_tuple(f, name)`")
     need("dbg:tuple:field", "derive_more::__private::DebugTuple::field(#out,&#ident)" in tt, "a positional field is no longer handed to `DebugTuple::field(_, &field)` as the field itself")
     need("dbg:tuple:fmt-field", "derive_more::__private::DebugTuple::field(#out,&derive_more::core::format_args!(#fmt_attr,#(#deref_args),*),)" in tt, "a positional field with `#[debug(\"..\")]` is no longer replaced by `&format_args!(..)` of that attribute only")
     need("dbg:tuple:finish", "derive_more::__private::DebugTuple::finish(#out)" in tt and "derive_more::__private::DebugTuple::finish_non_exhaustive(#out)" in tt, "tuple finishers changed")
-    need("dbg:struct:open", "&mutderive_more::core::fmt::Formatter::debug_struct(__derive_more_f,#ident,)" in tt, "named fields no longer start with `Formatter::debug_struct(f, name)`")
+    need("dbg:struct:open", f"&mutderive_more::core::fmt::Formatter::debug_struct({F},#ident,)" in tt, "named fields no longer start with `Formatter::debug_struct(f, name)`")
     need("dbg:struct:field", "derive_more::core::fmt::DebugStruct::field(#out,#field_str,&#field_ident)" in tt, "a named field is no longer handed to `DebugStruct::field(_, name, &field)`")
     need("dbg:struct:fmt-field", "derive_more::core::fmt::DebugStruct::field(#out,#field_str,&derive_more::core::format_args!(#fmt_attr,#(#deref_args),*),)" in tt, "a named field with `#[debug(\"..\")]` is no longer `field(_, name, &format_args!(..))`")
     need("dbg:struct:finish", "derive_more::core::fmt::DebugStruct::finish(#out)" in tt and "derive_more::core::fmt::DebugStruct::finish_non_exhaustive(#out)" in tt, "struct finishers changed")
